@@ -1,5 +1,5 @@
 """Theorems of lean/TLX/Props/C01Pipeline.lean that the C01 / C03 / C08 / C13 checks require (composed TLS model)."""
-MODULES = ["TLX.Props.C01Pipeline"]
+MODULES = ["TLX.Props.C01Pipeline", "TLX.Props.C01Capstone"]
 _NS = "TLX.Props.C01Pipeline."
 THEOREMS = [_NS + n for n in [
     # A. Session ∘ RecordLayer
@@ -22,4 +22,12 @@ THEOREMS = [_NS + n for n in [
     "server_hello_installs",
     "genKeys_installs_rel_legacy",
     "genKeys_installs_rel_13",
+]] + ["TLX.Props.C01Capstone." + n for n in [
+    # capstone: one theorem per protocol family at the level of Pipeline.connOut
+    "export_of_dirPlain",
+    "tls12_connection_exact",
+    "tls13_connection_exact",
+    "Ex.tls12_connection_exact_counterexample",
+    "Ex.tls12_instance",
+    "Ex.tls13_instance",
 ]]
